@@ -83,7 +83,7 @@ pub fn cases(tier: Tier, multi_only: bool) -> Vec<Case> {
     if !tier.is_thorough() {
         // plus the depth-2 histories that start with a failed (half-written) append
         let failed = history_alphabet()[2].clone();
-        for x in history_alphabet().into_iter().take(3) {
+        for x in history_alphabet().into_iter().take(2) {
             hs.push(vec![failed.clone(), x]);
         }
     }
